@@ -266,7 +266,10 @@ class Life:
             out["sha"] = sha1("\0".join(code))
             out["bytes"] = sum(len(c) for c in code)
             out["kernels"] = text.count("void tabulate_tensor_")
-        except Exception as e:  # a deterministic rejection is a value too (type only: messages carry ids)
+        except (KeyboardInterrupt, SystemExit):
+            raise
+        except BaseException as e:  # a deterministic rejection is a value too (type only: messages carry ids;
+            # BaseException because ufl's ArityMismatch is one)
             text = "".join(traceback.format_exception_only(type(e), e))
             out["sha"] = "EXC:" + type(e).__name__
             out["error"] = text[:300]
@@ -320,7 +323,9 @@ class Life:
                 raise RuntimeError("jit returned although the build was intercepted")
             except Stop:
                 pass
-            except Exception as e:
+            except (KeyboardInterrupt, SystemExit):
+                raise
+            except BaseException as e:
                 if "modname" not in rec:
                     raise
                 out["error"] = "".join(traceback.format_exception_only(type(e), e))[:300]
@@ -423,7 +428,10 @@ def main():
                 try:
                     os.close(r)
                     signal.alarm(900)
-                    data = json.dumps(live(job)).encode()
+                    try:
+                        data = json.dumps(live(job)).encode()
+                    except BaseException:
+                        data = json.dumps({"pid": job["pid"], "error": traceback.format_exc()}).encode()
                     with os.fdopen(w, "wb") as f:
                         f.write(data)
                 except BaseException:
